@@ -1530,6 +1530,20 @@ def convert_from_interleaved(args):
     if nargs % 2 == 1:
         # has output specified
         eq += f"->{''.join(symbol_map[ix] for ix in args[-1])}"
+    else:
+        # no output specified: like numpy, order the indices that appear once
+        # by the labels themselves (with any ellipsis dimensions first), not by
+        # the symbols they happen to have been assigned above
+        flat = [ix for term in inputs for ix in term if ix is not ...]
+        once = [ix for ix in dict.fromkeys(flat) if flat.count(ix) == 1]
+        try:
+            once = sorted(once)
+        except TypeError:
+            # labels that cannot be compared: keep the order of appearance
+            pass
+        out = "..." if len(flat) != sum(map(len, inputs)) else ""
+        out += "".join(symbol_map[ix] for ix in once)
+        eq += f"->{out}"
     return eq, arrays
 
 
